@@ -24,6 +24,7 @@ type docSpec struct {
 	Created  string // RFC3339 UTC or ""
 	Modified string
 	SvgKinds map[[3]uint8]string // fill colour -> svg element kind (unique per node)
+	Marks    bool                // the page has bleed + marks (drawn through an internal SVG template)
 	Features []string
 }
 
@@ -134,7 +135,7 @@ func (g *gen) background() string {
 		return fmt.Sprintf("background:url(%s) %s %s / %s;", pngURI, rng.Pick(g.r, "repeat", "no-repeat", "space", "round", "repeat-x", "space round"), rng.Pick(g.r, "0 0", "center", "10px 5px", "100% 100%"), rng.Pick(g.r, "auto", "8px 8px", "cover", "contain", "0 0", "50% auto"))
 	case 6:
 		g.feat("bg-svg")
-		return fmt.Sprintf("background:url('data:image/svg+xml,%s') %s;", `<svg xmlns="http://www.w3.org/2000/svg" width="10" height="10"><circle cx="5" cy="5" r="4" fill="blue"/></svg>`, rng.Pick(g.r, "repeat", "no-repeat", "space"))
+		return fmt.Sprintf("background:url('%s') %s;", g.svgURI(), rng.Pick(g.r, "repeat", "no-repeat", "space"))
 	case 7:
 		g.feat("bg-multi")
 		return fmt.Sprintf("background:linear-gradient(%s, %s), url(%s), %s;background-clip:%s;background-origin:%s;", g.colour(), g.colour(), pngURI, g.colour(), rng.Pick(g.r, "border-box", "padding-box", "content-box"), rng.Pick(g.r, "border-box", "padding-box", "content-box"))
@@ -264,7 +265,7 @@ func (g *gen) svgFill() (string, [3]uint8) {
 	return fmt.Sprintf("#%02x%02x%02x", c[0], c[1], c[2]), c
 }
 
-func (g *gen) svgElem(depth int) string {
+func (g *gen) svgElem(depth int, hidden bool) string {
 	fill, col := g.svgFill()
 	attrs := fmt.Sprintf(` fill="%s"`, fill)
 	if g.r.P(1, 3) {
@@ -284,6 +285,7 @@ func (g *gen) svgElem(depth int) string {
 	}
 	if g.r.P(1, 12) {
 		attrs += rng.Pick(g.r, ` display="none"`, ` visibility="hidden"`)
+		hidden = true
 	}
 	if g.r.P(1, 10) {
 		attrs += ` stroke-dasharray="` + rng.Pick(g.r, "4 2", "0", "1 0 3", "none", "5") + `"`
@@ -309,10 +311,18 @@ func (g *gen) svgElem(depth int) string {
 		s = fmt.Sprintf(`<rect x="%d" y="%d" width="%d" height="%d"%s%s/>`, n(40), n(30), w, h, rx, attrs)
 	case 1:
 		kind = "circle"
-		s = fmt.Sprintf(`<circle cx="%d" cy="%d" r="%d"%s/>`, n(40), n(30), n(15), attrs)
+		rr := n(15)
+		if rr == 0 {
+			kind = "circle-empty"
+		}
+		s = fmt.Sprintf(`<circle cx="%d" cy="%d" r="%d"%s/>`, n(40), n(30), rr, attrs)
 	case 2:
 		kind = "ellipse"
-		s = fmt.Sprintf(`<ellipse cx="%d" cy="%d" rx="%d" ry="%d"%s/>`, n(40), n(30), n(15), n(10), attrs)
+		rx, ry := n(15), n(10)
+		if rx == 0 || ry == 0 {
+			kind = "ellipse-empty"
+		}
+		s = fmt.Sprintf(`<ellipse cx="%d" cy="%d" rx="%d" ry="%d"%s/>`, n(40), n(30), rx, ry, attrs)
 	case 3:
 		kind = "line"
 		mk := ""
@@ -338,20 +348,23 @@ func (g *gen) svgElem(depth int) string {
 		kind = "path"
 		d := rng.Pick(g.r, "M5 5 L20 5 L20 20 Z", "M0 0 h10 v10 h-10 z M3 3 h4 v4 h-4 z", "M5 5 C 10 0, 20 0, 25 5 S 40 10 45 5", "M5 5 Q 10 15 20 5 T 40 5",
 			"M10 10 A 5 5 0 0 1 20 20", "M10 10 A 0 0 0 0 1 20 20", "", "L5 5", "M5 5", "M1 1 Z", "Z", "M5 5 L", "M 1e40 0 L 0 0", "m5 5 l10 0 0 10")
-		if d == "" || d == "L5 5" || d == "Z" {
+		if d == "" || d == "Z" {
 			kind = "path-empty"
+		}
+		if d == "L5 5" {
+			kind = "path-no-moveto"
 		}
 		s = fmt.Sprintf(`<path d="%s"%s/>`, d, attrs)
 	case 7:
 		kind = "g"
 		var b strings.Builder
 		for i, m := 0, n(3); i < m; i++ {
-			b.WriteString(g.svgElem(depth + 1))
+			b.WriteString(g.svgElem(depth+1, hidden))
 		}
 		s = fmt.Sprintf(`<g%s>%s</g>`, attrs, b.String())
 	case 8:
 		kind = "svg-nested"
-		s = fmt.Sprintf(`<svg x="%d" y="%d" width="%d" height="%d"%s>%s</svg>`, n(20), n(20), n(30), n(30), attrs, g.svgElem(depth+1))
+		s = fmt.Sprintf(`<svg x="%d" y="%d" width="%d" height="%d"%s>%s</svg>`, n(20), n(20), n(30), n(30), attrs, g.svgElem(depth+1, hidden))
 	case 9:
 		kind = "text"
 		s = fmt.Sprintf(`<text x="%d" y="%d" font-size="%d"%s%s>s%d<tspan dx="2">s%db</tspan></text>`, n(30), 10+n(20), n(14), rng.Pick(g.r, "", ` text-anchor="middle"`, ` text-anchor="end"`), attrs, g.nSvg, g.nSvg)
@@ -365,8 +378,32 @@ func (g *gen) svgElem(depth int) string {
 		kind = "unknown-element"
 		s = fmt.Sprintf(`<%s%s/>`, rng.Pick(g.r, "foo", "defs", "title", "a", "switch"), attrs)
 	}
+	// what the node is for the purpose of explaining a Paint with an empty path:
+	// containers and <image> never build a path; a shape builds none when it is degenerate or hidden
+	switch kind {
+	case "g", "svg-nested", "use", "image", "unknown-element", "text":
+	case "path-no-moveto":
+		if hidden {
+			kind = "shape-hidden"
+		}
+	default:
+		if strings.HasSuffix(kind, "-empty") {
+			kind = "shape-empty"
+		} else if hidden {
+			kind = "shape-hidden"
+		}
+	}
 	g.spec.SvgKinds[col] = kind
 	return s
+}
+
+// svgURI is a small SVG image as a data: URI (for <img> and backgrounds), nodes uniquely coloured
+func (g *gen) svgURI() string {
+	f1, c1 := g.svgFill()
+	f2, c2 := g.svgFill()
+	g.spec.SvgKinds[c1] = "svg"
+	g.spec.SvgKinds[c2] = "circle"
+	return fmt.Sprintf("data:image/svg+xml,<svg xmlns=%%22http://www.w3.org/2000/svg%%22 width=%%2210%%22 height=%%2210%%22 fill=%%22%%23%s%%22><circle cx=%%225%%22 cy=%%225%%22 r=%%224%%22 fill=%%22%%23%s%%22/></svg>", f1[1:], f2[1:])
 }
 
 func (g *gen) svg() string {
@@ -395,7 +432,7 @@ func (g *gen) svg() string {
 			`<symbol id="sym"><rect width="5" height="5"/></symbol></defs>`)
 	}
 	for i, m := 0, g.r.Range(0, 4); i < m; i++ {
-		b.WriteString(g.svgElem(0))
+		b.WriteString(g.svgElem(0, false))
 	}
 	b.WriteString(`</svg>`)
 	return b.String()
@@ -413,7 +450,7 @@ func (g *gen) inlineContent() string {
 			parts = append(parts, fmt.Sprintf(`<span%s style="%s%s">%s</span>`, g.maybeID(), g.textDeco(), rng.Pick(g.r, "", g.background(), g.border(), "display:inline-block;"+g.boxStyle()), g.text()))
 		case 7:
 			g.feat("img")
-			parts = append(parts, fmt.Sprintf(`<img%s src="%s" style="width:%s;height:%s;%s">`, g.maybeID(), rng.Pick(g.r, pngURI, "data:image/svg+xml,<svg xmlns='http://www.w3.org/2000/svg' width='8' height='8'><rect width='8' height='8' fill='green'/></svg>", "data:image/png;base64,AAAA", "nothing.png"),
+			parts = append(parts, fmt.Sprintf(`<img%s src="%s" style="width:%s;height:%s;%s">`, g.maybeID(), rng.Pick(g.r, pngURI, g.svgURI(), "data:image/png;base64,AAAA", "nothing.png"),
 				g.length(30), g.length(30), rng.Pick(g.r, "", g.border(), g.transform(), "object-fit:cover;", "image-rendering:pixelated;")))
 		case 8:
 			parts = append(parts, g.svg())
@@ -557,6 +594,7 @@ func genDoc(r *rng.R) *docSpec {
 	if r.P(1, 6) {
 		fmt.Fprintf(&css, ";bleed:%dpx;marks:%s", r.Range(0, 12), rng.Pick(r, "crop", "cross", "crop cross", "none"))
 		g.feat("bleed-marks")
+		spec.Marks = true
 	}
 	if r.P(1, 6) {
 		fmt.Fprintf(&css, ";%s", strings.TrimSuffix(g.background(), ";"))
